@@ -64,6 +64,14 @@ type Event struct {
 	Iters  []string // enclosing generic iterations (loops, handler invocations)
 	Seq    int
 	Deferred bool
+	Phis   []PhiInfo // loop-enter: header phis of the generic iteration
+}
+
+type PhiInfo struct {
+	Key     string // key of the LoopPhiV
+	Init    Val
+	Step    int64
+	HasStep bool
 }
 
 func (e *Event) String() string {
@@ -265,10 +273,18 @@ func siteOf(in ssa.Instruction) string {
 	}
 	for i, o := range b.Instrs {
 		if o == in {
-			return fmt.Sprintf("%s.b%d.i%d", shortFn(b.Parent()), b.Index, i)
+			return fmt.Sprintf("%s:b%di%d", baseFn(b.Parent()), b.Index, i)
 		}
 	}
-	return fmt.Sprintf("%s.b%d", shortFn(b.Parent()), b.Index)
+	return fmt.Sprintf("%s:b%d", baseFn(b.Parent()), b.Index)
+}
+
+// baseFn: short, stable function label for site ids (method name, closures as parent$n).
+func baseFn(fn *ssa.Function) string {
+	if fn == nil {
+		return "?"
+	}
+	return fn.Name()
 }
 
 func (en *Engine) eval(st *State, fr *Frame, v ssa.Value) Val {
@@ -826,7 +842,7 @@ func (en *Engine) transfer(st *State, fr *Frame, to *ssa.BasicBlock) []*State {
 		return []*State{st}
 	}
 	// loop entry: zero-iteration state and generic-iteration state
-	id := fr.ctx + "/loop." + fmt.Sprintf("%s.b%d", shortFn(fr.fn), to.Index)
+	id := fr.ctx + "/loop." + fmt.Sprintf("%s:b%d", baseFn(fr.fn), to.Index)
 	z := st.clone()
 	zf := z.top()
 	zf.loops = append(zf.loops, &loopCtx{info: li, mode: 1, id: id})
@@ -837,7 +853,7 @@ func (en *Engine) transfer(st *State, fr *Frame, to *ssa.BasicBlock) []*State {
 	gf := fr
 	gf.loops = append(gf.loops, &loopCtx{info: li, mode: 0, id: id})
 	g.iters = append(g.iters, id)
-	g.addEvent(&Event{Kind: EvLoopEnter, Instr: from.Instrs[len(from.Instrs)-1], Callee: id, Val: boolV(true)})
+	lev := g.addEvent(&Event{Kind: EvLoopEnter, Instr: from.Instrs[len(from.Instrs)-1], Callee: id, Val: boolV(true)})
 	ov := map[*ssa.Phi]Val{}
 	var idx = -1
 	for i, p := range to.Preds {
@@ -854,6 +870,20 @@ func (en *Engine) transfer(st *State, fr *Frame, to *ssa.BasicBlock) []*State {
 		lp.typ = phi.Type()
 		lp.key = "loopphi(" + id + "." + phi.Name() + ")"
 		ov[phi] = lp
+		if idx >= 0 {
+			pi := PhiInfo{Key: lp.key, Init: en.eval(g, gf, phi.Edges[idx]), HasStep: true}
+			for j, e := range phi.Edges {
+				if j == idx {
+					continue
+				}
+				st, ok := phiStep(e, phi)
+				if !ok || (pi.Step != 0 && pi.Step != st) {
+					pi.HasStep = false
+				}
+				pi.Step = st
+			}
+			lev.Phis = append(lev.Phis, pi)
+		}
 		// induction lower bound: phi = init on entry, phi + c (c > 0) on every back edge
 		if idx >= 0 {
 			if init, ok := phi.Edges[idx].(*ssa.Const); ok && isIntConst(init) {
@@ -886,6 +916,18 @@ func (en *Engine) transfer(st *State, fr *Frame, to *ssa.BasicBlock) []*State {
 func isIntConst(c *ssa.Const) bool {
 	b, ok := c.Type().Underlying().(*types.Basic)
 	return ok && b.Info()&types.IsInteger != 0 && c.Value != nil
+}
+
+func phiStep(v ssa.Value, phi *ssa.Phi) (int64, bool) {
+	b, ok := v.(*ssa.BinOp)
+	if !ok || b.Op != token.ADD || b.X != ssa.Value(phi) {
+		return 0, false
+	}
+	c, ok := b.Y.(*ssa.Const)
+	if !ok || !isIntConst(c) {
+		return 0, false
+	}
+	return c.Int64(), true
 }
 
 func isPhiPlusPositive(v ssa.Value, phi *ssa.Phi) bool {
@@ -964,7 +1006,9 @@ func (en *Engine) branch(st *State, fr *Frame, ifi *ssa.If, cv Val) []*State {
 		}
 	}
 	c, pol := normCond(cv, true)
+	decided := false
 	if b, known := decide(st, c); known {
+		decided = true
 		val := b == pol // truth of cv
 		if forced {
 			// forced direction contradicts what is known: path infeasible
@@ -977,7 +1021,7 @@ func (en *Engine) branch(st *State, fr *Frame, ifi *ssa.If, cv Val) []*State {
 	var out []*State
 	mk := func(s *State, to *ssa.BasicBlock, truth bool) {
 		f := s.top()
-		if _, isConst := c.(*ConstV); !isConst && !alreadyKnown(s, c) {
+		if _, isConst := c.(*ConstV); !isConst && !decided && !alreadyKnown(s, c) {
 			s.facts = append(s.facts, Fact{Cond: c, Pol: truth == pol, Forced: forced, Instr: ifi, Seq: len(s.events)})
 		}
 		out = append(out, en.transfer(s, f, to)...)
